@@ -523,9 +523,14 @@ def rule_zipname(ctx):
     wv = ev(arc[1])
     # reader: first argument of <archive>.open(member, 'r')
     member = None
+    dflow = Flow(de)
     for c in calls_in(de.node, "open"):
-        if isinstance(c.func, ast.Attribute) and isinstance(c.func.value, ast.Call) and c.args:
-            member = (c, c.args[0])
+        if isinstance(c.func, ast.Attribute) and c.args:
+            recv = c.func.value
+            if isinstance(recv, ast.Name):
+                recv = dflow.resolve(recv, at=c, depth=2)      # an archive object kept in a temporary
+            if isinstance(recv, ast.Call):
+                member = (c, c.args[0])
     if member is None:
         raise AnalysisError("decompress: member open() of the zip archive not found")
     env2 = {de.params[0]: _Name((True, True, True))}
